@@ -39,7 +39,11 @@ def marked_up(draw, base=None, p_wrap=4):
                 tail = nxt[:1]
                 if take == 2 and nxt[1:2] == " ":
                     tail = nxt[:2]
-            out.append(f"<{tag}>{lead}{_html.escape(word, quote=False)}{_html.escape(tail)}</{tag}>")
+            inner = _html.escape(word, quote=False)
+            if " " in inner and draw(st.integers(0, 2)) == 0:
+                # a line wrap / doubled blank inside the name: cleaning rewrites it, the markup keeps it
+                inner = inner.replace(" ", draw(st.sampled_from(["  ", "\n", " \n   ", "\t"])))
+            out.append(f"<{tag}>{lead}{inner}{_html.escape(tail)}</{tag}>")
             pos = m.end() + len(tail)
         else:
             out.append(_html.escape(word, quote=False))
